@@ -231,15 +231,17 @@ def unsym(alphabet, item):
     raise ValueError("not an item of alphabet %s: %r" % (alphabet, item))
 
 
-def build_expr(r, alphabet="letters", spelling="list", cache=None):
+def build_expr(r, alphabet="letters", spelling="list", cache=None, leaf=None):
     """the real expression (a Python list) for the tree r.
     cache: None = a new operator object per node; a dict = one operator object per distinct
-    sub-tree (the dict may live longer than one pattern: objects shared between patterns)."""
+    sub-tree (the dict may live longer than one pattern: objects shared between patterns).
+    leaf: code -> the Python value of the leaf ("a", code) (default: the item of `alphabet`); this is how trees whose
+    leaves are token predicates / parenthesis groups are built (gen/tokrx.py)."""
     from codelimit.common.gsm.operator.OneOrMore import OneOrMore
     from codelimit.common.gsm.operator.Optional import Optional
     from codelimit.common.gsm.operator.Union import Union
     from codelimit.common.gsm.operator.ZeroOrMore import ZeroOrMore
-    sym = sym_of(alphabet)
+    sym = leaf or sym_of(alphabet)
     bare = spelling == "bare"
 
     def seq(r):
@@ -268,8 +270,8 @@ def build_expr(r, alphabet="letters", spelling="list", cache=None):
     return seq(r)
 
 
-def show_expr(r, alphabet="letters", spelling="list"):
-    """Python source of what build_expr makes"""
+def show_expr(r, alphabet="letters", spelling="list", leaf=None):
+    """Python source of what build_expr makes (leaf: code -> source text of the leaf)"""
     sym = sym_of(alphabet)
     bare = spelling == "bare"
 
@@ -285,7 +287,7 @@ def show_expr(r, alphabet="letters", spelling="list"):
 
     def one(r):
         if r[0] == "a":
-            return repr(sym(r[1]))
+            return leaf(r[1]) if leaf else repr(sym(r[1]))
         name = {"u": "Union", "o": "Optional", "s": "ZeroOrMore", "p": "OneOrMore"}[r[0]]
         return "%s(%s)" % (name, ", ".join(operand(x) for x in r[1:]))
 
